@@ -14,18 +14,19 @@ for f in sorted(glob.glob(V + "/seeded/*/meta.json")):
     for c in m.get("checks_run", []):
         cid, rc, nk = c.split(":")
         seeds.setdefault(m["property"], []).append("%s→%s %s" % (m["seed"], cid, "caught (%s keys)" % nk.split("=")[1] if rc != "rc=0" else "MISSED"))
-print("| id | harnesses (flavour) | level | quick: wall s / covered | fixes | known | seeded changes |")
-print("|---|---|---|---|---|---|---|")
+def cover(cid, tier, level):
+    p = V + "/evidence_by_tier/%s.%s.json" % (cid, tier)
+    if not os.path.exists(p): return "not run"
+    ev = json.load(open(p)); cov = ev.get("coverage", {})
+    if level == "model_checking": covs = "%s states, %s transitions, %s traces on impl" % (cov.get("states"), cov.get("transitions"), cov.get("traces_validated_against_impl"))
+    else: covs = "%s evaluations, %s distinct non-trivial" % (cov.get("evaluations"), cov.get("distinct_nontrivial"))
+    return "%s s, %s: %s" % (ev.get("wall_s", "?"), "exhaustive" if cov.get("exhaustive") else "capped by its deadline (exit 0, exhaustive:false)", covs)
+print("| id | harnesses (flavour) | level | quick tier (last run: wall / covered) | thorough tier (last run) | fixes | known | seeded changes (quick tier) |")
+print("|---|---|---|---|---|---|---|---|")
 for cid in sorted(checks):
     c = checks[cid]
     hs = ", ".join("%s (%s)" % (h["name"], h["flavour"]) for h in c["harnesses"])
-    ev = {}
-    p = V + "/evidence/%s.json" % cid
-    if os.path.exists(p): ev = json.load(open(p))
-    cov = ev.get("coverage", {})
-    if c["level"] == "model_checking": covs = "%s states, %s transitions, %s traces on impl" % (cov.get("states"), cov.get("transitions"), cov.get("traces_validated_against_impl"))
-    else: covs = "%s evaluations, %s distinct non-trivial" % (cov.get("evaluations"), cov.get("distinct_nontrivial"))
-    print("| %s | %s | %s | %s (%s): %s / %s | %d | %d | %s |" % (cid, hs, c["level"], ev.get("tier", "?"), "exhaustive" if cov.get("exhaustive") else "capped", ev.get("wall_s", "?"), covs,
+    print("| %s | %s | %s | %s | %s | %d | %d | %s |" % (cid, hs, c["level"], cover(cid, "quick", c["level"]), cover(cid, "thorough", c["level"]),
           len(fixed.get(cid, [])), len(known.get(cid, [])), "; ".join(seeds.get(cid, [])) or "-"))
 
 print()
